@@ -1,6 +1,6 @@
 (* C03 — zip/jar members survive the rewrite and timestamps are exactly clamped.
    Property theorems only: each is closed by `exact <lemma>`. *)
-From AD Require Import Bytes Outcome Gen Date Cp437 Zip ZipProofs ZipRoundTrip.
+From AD Require Import Bytes Outcome Gen Date Cp437 Zip ZipProofs ZipRoundTrip ZipEndToEnd.
 
 (* obligation on the regenerated tables: magics, patch offsets (local +10, central +12 and +38, shift 16),
    time word before date word, comparison operators and the size heuristic are those the model uses *)
@@ -75,6 +75,23 @@ Theorem C03_output_reads_back : forall l,
   exists es, zip_read (zip_write l) = Some es /\ length es = length l /\ copy_all (zip_write l) es = Ok (map renorm l).
 Proof. exact zip_members_read_back. Qed.
 
+(* end to end, for every input of bytes the handler rewrites: the members copied out of the input, with times
+   clamped, are exactly what the reader finds in the output, in the same number and order - provided the
+   (possibly transcoded) names fit their 16-bit length field, the result stays below 4 GiB / 65535 members and
+   the zip64-locator position is not hit by accident.  Field widths of the copied members are derived from
+   bytes_ok x, not assumed *)
+Theorem C03_output_holds_members : forall epoch d t mt x y hm,
+  bytes_ok x -> d < 65536 -> t < 65536 ->
+  zip_process (epoch, (d, t)) mt x = Some (Ok (y, hm)) ->
+  exists es outs,
+    zip_read x = Some es /\ copy_all x es = Ok outs /\
+    let outs' := map (fun o => fst (clamp_member epoch (d, t) o)) outs in
+    y = zip_write outs' /\
+    (Forall (fun o => N.of_nat (length (zo_name o)) < 65536) outs' -> N.of_nat (length outs') < 65535 ->
+     N.of_nat (length (locals_of outs')) < 4294967295 -> N.of_nat (length (central_of outs')) < 4294967296 -> no_locator y ->
+     exists es', zip_read y = Some es' /\ length es' = length es /\ copy_all y es' = Ok (map renorm outs')).
+Proof. exact zip_output_holds_members. Qed.
+
 Print Assumptions C03_layout.
 Print Assumptions C03_local_patch.
 Print Assumptions C03_central_patch.
@@ -85,3 +102,4 @@ Print Assumptions C03_process.
 Print Assumptions C03_member_count.
 Print Assumptions C03_member_fields.
 Print Assumptions C03_output_reads_back.
+Print Assumptions C03_output_holds_members.
